@@ -9,6 +9,8 @@ package dtls
 
 import (
 	"bufio"
+	"crypto/ed25519"
+	"crypto/rand"
 	"crypto/sha256"
 	"crypto/tls"
 	"encoding/hex"
@@ -191,6 +193,8 @@ func c11Options(cs *c11Case, st *scenStores, interval time.Duration) ([]ClientOp
 		so = append(so, WithCertificates(p.server))
 	case "rsa":
 		so = append(so, WithCertificates(p.serverRSA))
+	case "ed25519":
+		so = append(so, WithCertificates(c11Ed25519Cert()))
 	}
 	if cs.S.ClientAuth != 0 {
 		so = append(so, WithClientAuth(ClientAuthType(cs.S.ClientAuth)), WithClientCAs(p.pool))
@@ -242,9 +246,28 @@ func c11Presented(sd *c11Side, server bool) [][]byte {
 		return p.client.Certificate
 	case "rsa":
 		return p.serverRSA.Certificate
+	case "ed25519":
+		return c11Ed25519Cert().Certificate
 	}
 
 	return nil
+}
+
+var (
+	c11EdOnce sync.Once       //nolint:gochecknoglobals
+	c11EdCert tls.Certificate //nolint:gochecknoglobals
+)
+
+// c11Ed25519Cert: a server leaf with an Ed25519 key under the lab CA.
+func c11Ed25519Cert() tls.Certificate {
+	c11EdOnce.Do(func() {
+		p := getPKI()
+		pub, priv, _ := ed25519.GenerateKey(rand.Reader)
+		der := mkCert(leafTmpl(31, labServerName, time.Now().Add(-time.Hour), time.Now().Add(200*time.Hour), false), p.caCert, pub, p.caKey)
+		c11EdCert = tls.Certificate{Certificate: [][]byte{der, p.caCert.Raw}, PrivateKey: priv}
+	})
+
+	return c11EdCert
 }
 
 func c11VerString(v protocol.Version) string {
